@@ -52,7 +52,8 @@ def run(tier, seed):
             if not mixed and rnd.random() < 0.04:
                 # 70..150 occurrences one minute apart: written as a rule, the constituent refills its cache while it is merged
                 m0 = rnd.randint(1, 3000); ts = [m0 + 60 * j for j in range(rnd.randint(70, 150))]
-            if ts and ts[0] % 100000 and rnd.random() < 0.15 and len(ts) < 66: u = u.upper()     # an event of two RRULEs plus RDATEs with these occurrences (a merge inside the event)
+            if ts and ts[0] % 100000 and len(ts) < 66 and not mixed and rnd.random() < 0.1: u = 'z'         # the same instants on two RDATE lines, UTC and wall-clock time of a zone far off
+            elif ts and ts[0] % 100000 and rnd.random() < 0.15 and len(ts) < 66: u = u.upper()     # an event of two RRULEs plus RDATEs with these occurrences (a merge inside the event)
             cons.append([[t, u] for t in ts])
         tot = sum(len(c) for c in cons)
         ops = ''.join(rnd.choice('NPPP') for _ in range(tot + rnd.randint(0, 4))) + 'PP'
